@@ -111,7 +111,7 @@ def s5(ck, an):
             if isinstance(node, ast.Call) and isinstance(node.func, ast.Attribute) and node.func.attr.startswith("process_"):
                 loc = f"{f.module.relpath}:{node.lineno}"
                 if f.short == "TradingEnv.reset" and node.func.attr == "process_EventNBBO":
-                    ev = node.args[0] if node.args else None
+                    ev = deref(an.fa(f), node.args[0])[0] if node.args else None      # the event may be built in a temporary first
                     const = isinstance(ev, ast.Call) and len(ev.args) >= 4 and all(isinstance(a, ast.Constant) for a in ev.args[2:4])
                     if const:
                         allowed_direct += 1
@@ -240,7 +240,7 @@ def s6(ck, an):
                      f"the transformer is fitted on `{ast.unparse(arg) if arg is not None else ''}` which is not bounded by .loc[:transformer_end]", construct=stmt_text(node))
             continue
         if m == "transform":
-            arg = node.args[0] if node.args else None
+            arg = deref(fa, node.args[0], at)[0] if node.args else None      # through temporaries
             ch = _chain(arg) if arg is not None else []
             b = any(k == "subscript" and bounded_by(n, "end") for k, n in ch)
             ck.check(b, "TAINT", "S6.transform-up-to-end", subj, fa.loc(node), "the transformer is applied to X.loc[:end]", f"transform is applied to `{ast.unparse(arg)[:60] if arg is not None else ''}`", construct=stmt_text(node))
@@ -293,8 +293,8 @@ def s7(ck, an):
     apps = [c for c in fa.calls_named("append") if ast.unparse(c.func.value) == "self.queue"]
     ck.floor("queue appends in State.process_EventNewObservation", len(apps), 1)
     for c in apps:
-        a = ast.unparse(c.args[0]) if c.args else "?"
-        ck.check(a == f"[{ev}.to_list()]", "ARGFLOW", "S7.queue-appends-current-event", subj, fa.loc(c), "the window queue receives the event being processed", f"queue.append({a})", construct=stmt_text(c))
+        a = fa.sym.canon(c.args[0]) if c.args else "?"
+        ck.check(a == specv(fa, f"[{ev}.to_list()]").key(), "ARGFLOW", "S7.queue-appends-current-event", subj, fa.loc(c), "the window queue receives the event being processed", f"queue.append({a})", construct=stmt_text(c))
     for e in fa.effects():
         if e.attr == "queue" and e.kind in "MWD":
             ok = e.kind == "M" and isinstance(e.node, ast.Call) and e.node.func.attr == "append"
